@@ -26,7 +26,11 @@ guards proved in `Props/C01Sflow`, the `DataSets[i][j]` of the encoders by their
 source order (plain `if err != nil` propagation is not a decision and is left out).  Each entry has its clause in
 the model: the reader guards are `Rd.readN`'s length test (C19); `for d.reader.Len() > 4` is `outer`;
 `setHeader.Length < 4` is `decodeSet`'s `badSetLen`; the set-id tests (`> 255`, `== 2 || == 3`, `>= 4 && <= 255`,
-`== 0`; v9: `== 0 || == 1`) are `setBody`'s dispatch; the record-loop condition is `setLoop`'s; `templateID == 0` /
+`== 0`; v9: `== 0 || == 1`) are `setBody`'s dispatch; the record-loop condition is `setLoop`'s `contCond`: since
+the padding repair (F16) it compares the octets left in the set and in the datagram with `minLen`, the model's
+`minLeft` — 5 (the former `> 4`) for template sets and ids up to 255, chosen by the second `SetID > 255` test, and
+`TemplateRecord.minRecordLen` = `minRecLen` for data sets (its two `range` loops are the sum over scope ++ fields,
+`f.Length == 65535` is `specMin`, `n < 1` the clamp to 1); `templateID == 0` /
 `ReadCount() == recordStart` are the zero-template / zero-length-record stops of the F2 repair; `leftoverBytes > 0`
 is `skipRest`; `ElementID > 0x8000` is `readSpec`'s enterprise test; the `i > 0; i--` loops are `readSpecs`;
 `fieldSpecifierLen == 65535` / `len8 == 255` are `dataLen`; the two field loops and `!ok` are `decFields`;
